@@ -1100,6 +1100,39 @@ func (r *runner) runSelect(s *selRow, valueChecks bool) (q *obsRows) {
 	return
 }
 
+func (r *runner) runPipelined(sels []*selRow) {
+	if len(sels) < 2 {
+		return
+	}
+	var frms []*frame.Frame
+	var toks, classes []string
+	var streams []int16
+	for _, s := range sels {
+		st := r.next()
+		streams = append(streams, st)
+		frms = append(frms, frame.NewFrame(primitive.ProtocolVersion4, st, &message.Query{Query: s.text, Options: &message.QueryOptions{Consistency: primitive.ConsistencyLevelOne}}))
+		toks = append(toks, "")
+		classes = append(classes, "c10")
+	}
+	from := r.cl.Count()
+	if err := r.cl.SendMany(frms, toks, classes); err != nil {
+		r.res.infra("pipelined selects: " + err.Error())
+		return
+	}
+	for i, s := range sels {
+		rv := r.cl.WaitStream(streams[i], from, 20*time.Second)
+		var err error
+		if rv == nil {
+			err = fmt.Errorf("no answer on stream %d", streams[i])
+		}
+		q := r.rows(s, "query-pipelined", rv, err)
+		r.res.count("selects_query_pipelined", 1)
+		if q != nil {
+			r.checkValues(s, "query-pipelined", q)
+		}
+	}
+}
+
 // starView builds this proxy's view of the ring from SELECT * on both tables.
 func (r *runner) starView(local, peers *selRow) {
 	r.tokOf = map[netip.Addr]string{}
@@ -1293,6 +1326,9 @@ func runCfg(res *results, cluster *fakecql.Cluster, j *job, starLocal, starPeers
 				for _, s := range j.sels[ps.Addr] {
 					r.runSelect(s, true)
 				}
+				// the same selects once more, all in ONE write on this connection: the answer to each must be its own
+				// (columns, rows and values), whatever the proxy still has queued for the others
+				r.runPipelined(append([]*selRow{starLocal, starPeers}, j.sels[ps.Addr]...))
 			}()
 		}
 	}
